@@ -22,7 +22,7 @@ RULE = ("G-sim traces under heavy equal-timestamp pressure (tight mode: kernel s
         "carries both a launch and a start, or >= 2 copies of one type overlapping. Distinct = hash of files + ranks.")
 ASSUMPTIONS = ["well-formed + causally consistent regime (no activity starts before its launch call)",
                "launch names as documented in get_runtime_launch_events_query", "float tolerance 1e-9 relative for bandwidth sums"]
-PLAN = {"quick": {"shards": 16, "cases": 400, "timeout": 900}, "thorough": {"shards": 16, "cases": 8000, "timeout": 3400}}
+PLAN = {"quick": {"shards": 16, "cases": 640, "timeout": 900}, "thorough": {"shards": 16, "cases": 8000, "timeout": 3400}}
 FLOORS = {"quick": {"distinct_nontrivial": 100, "queue_rows": 6000, "tied_instants": 300, "bw_rows": 1500, "counter_files": 150,
                     "counter_events_checked": 3000, "streams_judged": 500},
           "thorough": {"distinct_nontrivial": 2000, "queue_rows": 120000, "tied_instants": 6000, "bw_rows": 30000, "counter_files": 3000,
